@@ -140,12 +140,17 @@ class SimpleOperationExecutor:
         try:
             result = self.file_comparison_result(
                 filename, file_comparison_name)
-        except FileNotFoundError:
+        except (FileNotFoundError, NotADirectoryError):
+            # A path below a regular file does not exist
             raise FileNotFoundError(
                 'The requested file does not exist: {:s}'.format(filename))
         except IsADirectoryError:
-            raise IsADirectoryError(
-                'Cannot read a directory: {:s}'.format(filename))
+            # The directory might be absent from the virtual file system
+            if self.is_dir(filename, created_files):
+                raise IsADirectoryError(
+                    'Cannot read a directory: {:s}'.format(filename))
+            raise FileNotFoundError(
+                'The requested file does not exist: {:s}'.format(filename))
 
         # The file must exist, since we didn't raise a FileNotFoundError or an
         # IsADirectoryError
